@@ -802,7 +802,7 @@ theorem q2Ex_ref : Ref q2FC q2Abs :=
     cur_le := fun v hv => (by cases hv), settled := fun _ v hv => (by cases hv) }
 
 theorem q2Ex_fi : FI q2FC := by
-  refine ⟨q2Ex_ok.1, q2Ex_ok.2, ?_, fun v hv => (by cases hv), ?_⟩
+  refine ⟨q2Ex_ok.1, q2Ex_ok.2, ?_, ?_⟩
   · show aGet q2PA.indices NodeRef.zero = none
     decide
   · intro i n hn
